@@ -2581,6 +2581,9 @@ impl HnswBackend {
 
         let mut meta_index = self.metadata_index.write();
         meta_index.remove_doc(internal_id as u64, &old_metadata);
+        // Must not be held across create_snapshot(): the snapshotter takes snapshot_lock
+        // exclusively while other writers hold it shared and wait for metadata_index.
+        drop(meta_index);
 
         drop(write_gate_guard);
         drop(snapshot_guard);
